@@ -105,7 +105,7 @@ def run(tier, seed):
                     v.violation("monitor notification reached its target with a different reference", {**case, "process": p, "got": m})
                 if no is not None and 1 <= no <= len(frames_only):
                     want_kind = frames_only[no - 1][0]
-                    kind_ok = {"send_pid": "regular", "send_name": "regular", "exit": "exit", "monitor_exit": "monitor_exit"}.get(want_kind)
+                    kind_ok = {"send_pid": "regular", "send_name": "regular", "die_pid": "regular", "die_name": "regular", "exit": "exit", "monitor_exit": "monitor_exit"}.get(want_kind)
                     if kind_ok != m["k"]:
                         v.violation("a frame was delivered as a different kind of message", {**case, "process": p, "frame": no, "got": m["k"]})
             enos = [e[0] for e in exp]
@@ -154,6 +154,34 @@ def run(tier, seed):
         v.violation("a message for a live process that followed a burst for another process was never delivered", bcase)
     if not b["still_connected"]:
         v.violation("the connection did not survive a burst of well-formed messages", bcase)
+    # ---- processes ending while the receiver routes (Inbound.tla die_name / die_pid, free-running): the peer makes each of W named workers fail
+    # in turn, by name or by pid, and between the failures writes numbered messages to a process by name and to another by pid, and one more to
+    # the worker that has just failed.  The two survivors get every message addressed to them, in order; a worker handles the message it fails on
+    # and nothing else; its name stops resolving; lookups return; the connection stays.
+    cp = os.path.join(lib.outdir(PID), "churn.ndjson")
+    lib.harness(["churn-run", 1500 if thorough else 300, 4 if thorough else 3, cp], timeout=900)
+    for c in lib.read_ndjson(cp):
+        if "tool_error" in c:
+            raise lib.ToolError("churn scenario: " + c["tool_error"])
+        v.case("churn " + str(c["round"]))
+        ccase = {"workers": c["workers"], "round": c["round"], "waited_ms": c["waited_ms"]}
+        if not c["wrote_all"]:
+            raise lib.ToolError("churn scenario: the scripted peer could not write its frames")
+        for who, got, n in (("the process addressed by name", c["sink_got"], c["sink_expected"]), ("the process addressed by pid", c["bystander_got"], c["bystander_expected"])):
+            if got != list(range(1, n + 1)):
+                gap = next((i + 1 for i, x in enumerate(got) if x != i + 1), len(got) + 1)
+                v.violation("while other processes were ending, " + who + " did not get every message addressed to it, once, in the order sent (20 s)",
+                            {**ccase, "sent": n, "handled": len(got), "first_difference_at": gap, "lookups_return": c["lookups_return"], "still_connected": c["still_connected"]})
+        if c["workers_bad"]:
+            v.violation("a process that fails on a message handled something other than exactly that message", {**ccase, "count": c["workers_bad"], "examples": c["workers_not_exactly_their_die"]})
+        if not c["lookups_return"]:
+            v.violation("a registry lookup did not return within 3 s after processes ended while name-addressed messages were arriving", ccase)
+        elif c["names_of_ended_workers_still_resolving"]:
+            v.violation("the name of a process that has ended still resolves", {**ccase, "workers": c["names_of_ended_workers_still_resolving"]})
+        if c["lookups_return"] and not c["sink_resolves"]:
+            v.violation("the name of a live process stopped resolving while other processes were ending", ccase)
+        if not c["still_connected"]:
+            v.violation("the connection did not survive local processes ending during well-formed traffic", ccase)
     # ---- quiet periods (thorough only: real time against the hard-wired 10 s read timeout)
     v.cov["traces_validated_against_impl"] = len(obs)
     v.cov["rule"] = ("TLC: all frame sequences up to 3 over 5 good kinds x 4 recipient states (live, live+named, terminated, never existed), 9 junk kinds, 3 fatal kinds and a local "
